@@ -87,6 +87,9 @@ func classifyCompile(output string) (string, string) {
 			return "operation-names-collide-after-normalisation", first
 		}
 	}
+	if strings.HasPrefix(first, "field and method with the same name") {
+		return "field-name-collides-with-generated-method", first
+	}
 	norm := identRe.ReplaceAllStringFunc(first, func(w string) string {
 		if keepWords[w] {
 			return w
